@@ -3,6 +3,9 @@
 From Qv Require Import Common.Bytes Gen.GenStarttls Model.NetRead Model.TlsSwitch Spec.TlsSwitchSpec.
 Local Open Scope bool_scope.
 
+Section Sound.
+Variable tf : conn -> list (N * Z).
+
 Definition is_conn (e : ev) : bool := match e with EvConn _ => true | _ => false end.
 
 Lemma since_conn_acc_snoc tr : forall acc e,
@@ -75,7 +78,7 @@ Proof.
 Qed.
 
 Lemma step_sound k pre c e c' :
-  Hist k pre c -> step k c e = Some c' -> C18_event_ok k pre e /\ Hist k (pre ++ [e]) c'.
+  Hist k pre c -> step tf k c e = Some c' -> C18_event_ok tf k pre e /\ Hist k (pre ++ [e]) c'.
 Proof.
   intros HH Hs. pose proof HH as (H1 & H2 & H3 & H4).
   destruct e as [i|i|r|t b|t it lft|p h|v|t ext]; cbn [step] in Hs.
@@ -212,14 +215,14 @@ Proof.
     + cbn. intros bit Hb. now left.
   - (* EvMail *)
     destruct (x_ph c) as [| | |prev] eqn:Eph; try discriminate.
-    + destruct (t || k_route k || need_verify (conn_of k (x_k c))) eqn:Ec; [discriminate|].
+    + destruct (t || k_route k || need_verify tf (conn_of k (x_k c))) eqn:Ec; [discriminate|].
       apply orb_false_iff in Ec as [Ec Env]. apply orb_false_iff in Ec as [Et Er]. subst t.
       inversion Hs; subst c'. destruct H2 as [Hnd Hnf]. split.
       * cbn. exists (x_k c). split; [apply H1; try rewrite Eph; discriminate|].
         split; [exact Hnf|]. split; [split; [discriminate|intros Hd; contradiction]|].
         split; [intros _; split; assumption|]. split; [rewrite Env; discriminate|discriminate].
       * apply (Hist_plain k pre c _ c HH); try reflexivity; try discriminate; auto.
-    + destruct (negb t || (need_verify (conn_of k (x_k c)) && negb (x_vfy c)) || negb (N.eqb (N.lor (x_acc c) ext) (x_acc c))) eqn:Ec; [discriminate|].
+    + destruct (negb t || (need_verify tf (conn_of k (x_k c)) && negb (x_vfy c)) || negb (N.eqb (N.lor (x_acc c) ext) (x_acc c))) eqn:Ec; [discriminate|].
       apply orb_false_iff in Ec as [Ec Eacc]. apply orb_false_iff in Ec as [Et Env].
       apply negb_false_iff in Et. subst t. apply negb_false_iff, N.eqb_eq in Eacc.
       inversion Hs; subst c'. destruct H2 as (Hd & Hnf & Hprev). split.
@@ -238,12 +241,12 @@ Proof.
 Qed.
 
 Lemma steps_sound k : forall tr pre c cf,
-  Hist k pre c -> steps k c tr = Some cf ->
-  forall a e b, tr = a ++ e :: b -> C18_event_ok k (pre ++ a) e.
+  Hist k pre c -> steps tf k c tr = Some cf ->
+  forall a e b, tr = a ++ e :: b -> C18_event_ok tf k (pre ++ a) e.
 Proof.
   induction tr as [|x tr IH]; intros pre c cf HH Hs a e b Heq.
   - destruct a; discriminate.
-  - cbn [steps] in Hs. destruct (step k c x) as [c1|] eqn:Ex; [|discriminate].
+  - cbn [steps] in Hs. destruct (step tf k c x) as [c1|] eqn:Ex; [|discriminate].
     destruct (step_sound k pre c x c1 HH Ex) as (Hok & HH1).
     destruct a as [|y a].
     + inversion Heq; subst. rewrite app_nil_r. exact Hok.
@@ -251,8 +254,10 @@ Proof.
       eapply (IH _ _ _ HH1 Hs). reflexivity.
 Qed.
 
-Theorem checker_sound k tr : spec_ok_C18 k tr = true -> C18_trace_ok k tr.
+Theorem checker_sound k tr : spec_ok_with tf k tr = true -> C18_trace_ok tf k tr.
 Proof.
-  unfold spec_ok_C18. destruct (steps k cst0 tr) as [cf|] eqn:Es; [|discriminate]. intros _.
+  unfold spec_ok_with. destruct (steps tf k cst0 tr) as [cf|] eqn:Es; [|discriminate]. intros _.
   intros pre e post Heq. exact (steps_sound k tr [] cst0 cf (Hist_init k) Es pre e post Heq).
 Qed.
+
+End Sound.
